@@ -106,7 +106,7 @@ def jobs(tier):
 
     # ------------------------------------------------------------------------------------------------
     # class B: digit-vector routines, every operand <= 3 digits, one job per aliasing mode
-    UB = UW(6, "uintLength.0:66")
+    UB = ["--slice-formula"] + UW(6, "uintLength.0:66")    # slicing: only the cone of influence of the obligations is encoded
     IINT = (("iintAbs", st("a") + st("r0"), ("r", "ra")), ("iintNegate", st("a") + st("r0"), ("r", "ra")),
             ("iintPlus", st("a") + st("b") + st("r0"), ("r", "ra", "rb")),
             ("iintMinus", st("a") + st("b") + st("r0"), ("r", "ra", "rb")),
@@ -157,17 +157,17 @@ def jobs(tier):
     for f, me, other in (("bintPlus", "bintPlus", "bintMinus"), ("bintMinus", "bintMinus", "bintPlus")):
         for k, kn in KK:
             for sg in (0, 1, 2, 3):
-                quick = (k == "ss" and sg in (0, 1, 2)) or (k == "ii" and sg == 0)
+                quick = (k == "ss" and sg == 0)
                 if not quick and tier != "thorough":
                     continue
                 re_me = 1 if sg == 3 else 0          # both negative: one re-entry of the same function
                 J("bint.%s.%s.%s" % (f, kn, SGN[sg]), "h_%s_%s_sg%d" % (f, k, sg), [f, other] + INL,
                   bk("a")[:-1] + bk("b0")[:-1] + ["same"], cls="P" if k == "ii" else "B", bound=None if k == "ii" else B3,
                   unwind=["--slice-formula"] + UW(6, "uintLength.0:66", "%s:%d" % (me, re_me), "%s:0" % other),
-                  timeout=280 if tier != "thorough" else 1500, mem_gb=14)
+                  timeout=600 if tier != "thorough" else 1800, mem_gb=14)
         J("canary.bint." + f, "h_%s_ss_sg1" % f, [f], bk("a")[:-1] + bk("b0")[:-1] + ["same"], cls="B", bound=B3,
           unwind=["--slice-formula"] + UW(6, "uintLength.0:66", "%s:0" % me, "%s:0" % other),
-          timeout=280, mem_gb=14, defs=["-DCANARY_" + f], kind="canary")
+          timeout=600, mem_gb=14, defs=["-DCANARY_" + f], kind="canary")
 
     # products that have a cheap exact formulation
     J("bint.bintTimes.half_range_immediates", "h_bintTimes_half", ["bintTimes"], ["x", "y"], unwind=UB,
@@ -182,11 +182,18 @@ def jobs(tier):
     # shifts
     for k, kn in K1:
         J("bint.bintShift." + kn, "h_bintShift_" + k, ["bintShift", "iintShift", "bintLength", "xintStore", "bintAlloc", "xintImmedIfCan"],
-          bk("b")[:-1] + ["n"], cls="B", bound=B3 + ", result < 2^127", unwind=UB, timeout=280)
-        J("bint.bintShiftRem." + kn, "h_bintShiftRem_" + k, ["bintShiftRem", "bintAlloc", "xintImmedIfCan"],
-          bk("b")[:-1] + ["n"], cls="B", bound=B3 + ", 0 <= n <= 126, b >= 0", unwind=UB, timeout=280)
+          bk("b")[:-1] + ["n"], cls="B", bound=B3 + ", result < 2^127", unwind=UB, timeout=400)
     J("canary.bint.bintShift", "h_bintShift_s", ["bintShift"], bk("b")[:-1] + ["n"], cls="B", bound=B3, unwind=UB,
-      defs=["-DCANARY_bintShift"], kind="canary", timeout=280)
+      defs=["-DCANARY_bintShift"], kind="canary", timeout=400)
+    # bintShiftRem (fiBIntShiftRem passes the user's count): int-typed shifts by n, hence --undefined-shift-check
+    SHC = STD + ["--undefined-shift-check"]
+    for k, kn in K1:
+        J("bint.bintShiftRem.%s.n_ge_1" % kn, "h_bintShiftRem_%s" % k, ["bintShiftRem", "bintAlloc", "xintImmedIfCan"],
+          bk("b")[:-1] + ["n"], cls="B", bound=B3 + ", 1 <= n <= 126, b >= 0", unwind=UB, timeout=400, checks=SHC)
+    # n == 0 on a stored number: bintAlloc(0) gives capacity 0 and `for (i=0; i<Placea(r) - 1; i++)` wraps;
+    # 12 iterations without unwinding assertions are enough to run off the 10-digit struct
+    J("bint.bintShiftRem.stored.n_eq_0_included", "h_bintShiftRem_s0", ["bintShiftRem"], bk("b")[:-1] + ["n"], cls="B",
+      bound=B3 + ", 0 <= n <= 126, b >= 0", unwind=["--slice-formula", "--unwind", "12"], timeout=400, checks=SHC)
     J("bint.bintFrPlacev", "h_bintFrPlacev", ["bintFrPlacev", "xintImmedIfCan"] + ALLOC, ["neg", "pc", "data_d0", "data_d1", "data_d2", "data_d3"],
       cls="B", bound="<= 3 digits", unwind=UB)
 
@@ -204,4 +211,29 @@ def jobs(tier):
                    "inputs": ins, "cls": "P", "kind": "obligation", "checks": NOPTR, "native": True,
                    "splice": {"bigint.c": "bigint.json"}, "loops": True, "timeout": 240,
                    "cbmc": ["--unwind", "3", "--unwinding-assertions"]})
+    # ------------------------------------------------------------------------------------------------
+    # dword.c: full-word double-word primitives
+    def D(name, entry, fns, ins, **kw):
+        d = {"name": name, "src": "dword_h.c", "entry": entry, "functions": fns, "inputs": ins, "cls": "P",
+             "kind": "obligation", "checks": STD, "native": True, "timeout": 120, "cbmc": ["--unwind", "4", "--unwinding-assertions"]}
+        d.update(kw)
+        js.append(d)
+    D("dword.xxTestGtDouble", "h_xxTestGtDouble", ["xxTestGtDouble"], ["ah", "al", "bh", "bl"])
+    D("dword.xxPlusStep", "h_xxPlusStep", ["xxPlusStep"], ["a", "b", "ki"])
+    D("canary.dword.xxTestGtDouble", "h_xxTestGtDouble", ["xxTestGtDouble"], ["ah", "al", "bh", "bl"],
+      defs=["-DCANARY_xxTestGtDouble"], kind="canary")
+    D("canary.dword.xxPlusStep", "h_xxPlusStep", ["xxPlusStep"], ["a", "b", "ki"], defs=["-DCANARY_xxPlusStep"], kind="canary")
+    if tier == "thorough":
+        # multiplier/divider equivalences: expected to stay undecided
+        D("dword.xxTimesDouble.low_word", "h_xxTimesDouble_low", ["xxTimesDouble"], ["a", "b"], timeout=1200)
+        D("dword.xxTimesDouble.half_words", "h_xxTimesDouble_half", ["xxTimesDouble"], ["a", "b"], timeout=1200)
+        D("dword.xxTimesDouble.full", "h_xxTimesDouble", ["xxTimesDouble"], ["a", "b"], timeout=1200)
+        D("dword.xxModDouble.divisor_below_2^32", "h_xxModDouble_small", ["xxModDouble"], ["nh", "nl", "d"], timeout=1200)
+
+    # canary of the loop-contract family: with only the code's own assert (Placea(r) >= Placec(a)) as precondition the
+    # carry digit of iintPlus has no room (loop bodies are havocked, so the carry is arbitrary): must FAIL
+    js.append({"name": "canary.mem.iintPlus", "src": "bigint_mem_h.c", "entry": "m_iintPlus", "functions": ["iintPlus"],
+               "inputs": [], "cls": "P", "kind": "canary", "checks": NOPTR, "defs": ["-DCANARY_mem_iintPlus"],
+               "splice": {"bigint.c": "bigint.json"}, "loops": True, "timeout": 240,
+               "cbmc": ["--unwind", "3", "--unwinding-assertions"]})
     return js
